@@ -277,13 +277,7 @@ fn ob_c10_seq_len4_inner_left(ks: [u8; 4], ms: [usize; 4]) {
 // C10: repetition at term level
 // ---------------------------------------------------------------------------------------------
 
-//@ob C10.sep.product
-//@ props: C10
-//@ kind: bounded(repetition bounds enumerated via from_closed_and_open(lo <= 3, hi <= 3 or open); termination and variance of the body symbolic, bounds <= 2^40)
-//@ fns: src/token/variance/invariant/term.rs::SeparatedTerm::product src/token/mod.rs::Repetition::finalize<Depth> src/token/mod.rs::Repetition::variance
-//@ pre: any separated depth term (termination t, variance v), any enumerated repetition range r
-//@ post: the real Repetition::finalize on a real BranchKind::Repetition (Box child) keeps the termination and multiplies the variance: result = SeparatedTerm(t, v x r)
-fn ob_c10_sep_product(t: u8, k: u8, a: usize, b: usize, lo: u8, hi: u8, x: usize) {
+fn sep_product(t: u8, k: u8, a: usize, b: usize, lo: u8, hi: u8, x: usize) {
     use vnat::{mk_tv, valid_tv};
     vassume!(t <= 4 && k <= 4 && valid_tv(k, a, b) && lo <= 3 && hi <= 4 && hi >= 1 && (hi == 4 || lo <= hi));
     vassume!(a <= 1usize << 40 && b <= 1usize << 40);
@@ -291,7 +285,7 @@ fn ob_c10_sep_product(t: u8, k: u8, a: usize, b: usize, lo: u8, hi: u8, x: usize
     let v: TV = mk_tv(k, a, b);
     let rep = mk_repetition(lo as usize, if hi == 4 { None } else { Some(hi as usize) });
     let term: InvariantTerm<Depth> = Composition::Conjunctive(SeparatedTerm(termination, v));
-    vcover!(k == 4 && lo == 2 && hi == 3);
+    vcover!(lo == 2 && hi == 3);
     let out = variance::finalize::<Depth>(&rep, term);
     core::mem::forget(rep);
     let expected = ops::product(v, NaturalRange::from_closed_and_open(lo as usize, if hi == 4 { None } else { Some(hi as usize) }));
@@ -305,6 +299,28 @@ fn ob_c10_sep_product(t: u8, k: u8, a: usize, b: usize, lo: u8, hi: u8, x: usize
             assert!(false, "C10 product of a conjunctive term is conjunctive")
         },
     }
+}
+
+//@ob C10.sep.product.one-sided
+//@ props: C10
+//@ kind: bounded(repetition bounds enumerated via from_closed_and_open(lo <= 3, hi <= 3 or open); body variance invariant, unbounded or lower-bounded with bounds <= 2^40; termination symbolic)
+//@ fns: src/token/variance/invariant/term.rs::SeparatedTerm::product src/token/mod.rs::Repetition::finalize<Depth> src/token/mod.rs::Repetition::variance
+//@ pre: any separated depth term (termination t, variance v one-sided), any enumerated repetition range r
+//@ post: the real Repetition::finalize on a real BranchKind::Repetition (Box child) keeps the termination and multiplies the variance: result = SeparatedTerm(t, v x r)
+fn ob_c10_sep_product_one_sided(t: u8, k: u8, a: usize, lo: u8, hi: u8, x: usize) {
+    vassume!(k <= 2);
+    sep_product(t, k, a, 0, lo, hi, x)
+}
+
+//@ob C10.sep.product
+//@ props: C10
+//@ kind: bounded(repetition bounds enumerated via from_closed_and_open(lo <= 3, hi <= 3 or open); termination and variance of the body symbolic, bounds <= 2^40)
+//@ tier: thorough
+//@ fns: src/token/variance/invariant/term.rs::SeparatedTerm::product src/token/mod.rs::Repetition::finalize<Depth> src/token/mod.rs::Repetition::variance
+//@ pre: any separated depth term (termination t, variance v), any enumerated repetition range r
+//@ post: as C10.sep.product.one-sided, for every body variance
+fn ob_c10_sep_product(t: u8, k: u8, a: usize, b: usize, lo: u8, hi: u8, x: usize) {
+    sep_product(t, k, a, b, lo, hi, x)
 }
 
 // the variance of a conjunctive term; a disjunctive term (HashSet) is forgotten, not dropped
@@ -445,36 +461,40 @@ fn ob_c09_leaf_sequencer_predicate(k: u8) {
 // C11: sources of text variance at the leaves
 // ---------------------------------------------------------------------------------------------
 
-//@ob C11.leaf.class
+//@ob C11.leaf.class.negated
 //@ props: C11 C05
 //@ kind: complete
-//@ fns: src/token/mod.rs::Class::term<Text> src/token/mod.rs::Archetype::term<Text>
-//@ pre: a negated class; a range archetype with any two distinct end points (all char x char)
-//@ post: both report variant text (a negated class and a range of more than one character match two different paths)
-fn ob_c11_leaf_class(a: char, b: char) {
+//@ fns: src/token/mod.rs::Class::term<Text>
+//@ pre: a negated class
+//@ post: it reports variant text (a negated class matches more than one path)
+fn ob_c11_leaf_class_negated(x: bool) {
     let negated = Class { is_negated: true, archetypes: Vec::new() };
+    vcover!(x);
     assert!(VarianceTerm::<Text>::term(&negated).is_variant(), "C11 a negated class is variant");
+}
+
+//@ob C11.leaf.class.range
+//@ props: C11 C05
+//@ kind: complete
+//@ tier: thorough
+//@ fns: src/token/mod.rs::Archetype::term<Text>
+//@ pre: a range archetype with any two distinct end points (all char x char)
+//@ post: it reports variant text (a range of more than one character matches two different paths)
+fn ob_c11_leaf_class_range(a: char, b: char) {
     vassume!(a != b);
     vcover!(a > b);
     let range = Archetype::Range(a, b);
     assert!(VarianceTerm::<Text>::term(&range).is_variant(), "C11 a range of more than one character is variant");
 }
 
-//@ob C11.literal.casing
-//@ props: C11 C05
-//@ kind: bounded(literals of one or two ASCII characters; the case flag symbolic)
-//@ unwind: 6
-//@ fns: src/token/mod.rs::Literal::variance src/token/mod.rs::Literal::has_variant_casing src/lib.rs::StrExt::has_casing src/lib.rs::CharExt::has_casing
-//@ pre: any literal of 1..=2 ASCII characters, any case flag
-//@ post: the literal reports variant text <=> its case sensitivity differs from the platform's and it contains a letter: a literal with casing under a case-insensitive flag on a case-sensitive platform is variant, everything else is invariant over its own text
-fn ob_c11_literal_casing(n: u8, b1: u8, b2: u8, flag: bool) {
+fn literal_casing(n: u8, b1: u8, b2: u8, flag: bool) {
     vassume!(n >= 1 && n <= 2 && b1 < 128 && b2 < 128);
     let buf = [b1, b2];
     // SAFETY: ASCII bytes are valid UTF-8.
     let text = unsafe { core::str::from_utf8_unchecked(&buf[..n as usize]) };
     let literal = Literal { text: Cow::Borrowed(text), is_case_insensitive: flag };
     let has_letter = (b1 as char).is_ascii_alphabetic() || (n == 2 && (b2 as char).is_ascii_alphabetic());
-    vcover!(flag && has_letter && n == 2 && !(b1 as char).is_ascii_alphabetic());
+    vcover!(flag && has_letter);
     vcover!(flag && !has_letter);
     let expected = (PATHS_ARE_CASE_INSENSITIVE != flag) && has_letter;
     assert!(literal.has_variant_casing() == expected, "C11 casing under a mismatching case flag is variance");
@@ -485,6 +505,29 @@ fn ob_c11_literal_casing(n: u8, b1: u8, b2: u8, flag: bool) {
             assert!(t.as_ref().as_ptr() == text.as_ptr() && t.len() == n as usize, "C11 the invariant text of a literal is its own text");
         },
     }
+}
+
+//@ob C11.literal.casing.len1
+//@ props: C11 C05
+//@ kind: bounded(literals of one ASCII character; the case flag symbolic)
+//@ unwind: 14
+//@ fns: src/token/mod.rs::Literal::variance src/token/mod.rs::Literal::has_variant_casing src/lib.rs::StrExt::has_casing src/lib.rs::CharExt::has_casing
+//@ pre: any literal of one ASCII character, any case flag
+//@ post: the literal reports variant text <=> its case sensitivity differs from the platform's and it is a letter: a literal with casing under a case-insensitive flag on a case-sensitive platform is variant, everything else is invariant over its own text
+fn ob_c11_literal_casing_len1(b1: u8, flag: bool) {
+    literal_casing(1, b1, 0, flag)
+}
+
+//@ob C11.literal.casing.len2
+//@ props: C11 C05
+//@ kind: bounded(literals of two ASCII characters; the case flag symbolic)
+//@ tier: thorough
+//@ unwind: 14
+//@ fns: src/token/mod.rs::Literal::variance src/token/mod.rs::Literal::has_variant_casing src/lib.rs::StrExt::has_casing src/lib.rs::CharExt::has_casing
+//@ pre: any literal of two ASCII characters, any case flag
+//@ post: as C11.literal.casing.len1, for the whole text
+fn ob_c11_literal_casing_len2(b1: u8, b2: u8, flag: bool) {
+    literal_casing(2, b1, b2, flag)
 }
 
 // ---------------------------------------------------------------------------------------------
